@@ -8,7 +8,8 @@
                     `range info.ScriptList` enumerates, [iter2] the order in
                     which `range includeLookup` enumerates.  The x/text matcher
                     is the Section variable [matcher].
-   M_kern_read      mirrors kern.Read (kern/kern.go)
+   M_kern_read      mirrors kern.Read (kern/kern.go), as repaired by
+                    fixes/C02-kern-overlapping-subtables.diff
    kern_to_gpos     mirrors the kern -> GPOS conversion in sfnt.Read (read.go)
    M_standard_ligatures   mirrors standardLigatures (ligatures.go)
    M_layout         mirrors Font.NewLayouter / Layouter.Layout (layout.go)
@@ -194,10 +195,15 @@ Section KernRead.
                 | n0 :: n1 :: rest2 =>
                     let mn := negb (N.land h5 maskMin =? 0) in
                     let ov := negb (N.land h5 maskOvr =? 0) in
-                    match read_pairs mn ov (N.to_nat (n0 * 256 + n1)) (skipn 6 rest2) with
+                    let np := N.to_nat (n0 * 256 + n1) in
+                    match read_pairs mn ov np (skipn 6 rest2) with
                     | None => Err
                     | Some es =>
-                        match kern_tables n' b pos' with
+                        (* subtables do not overlap: q = p.Pos() after the pair
+                           loop; if q > pos { pos = q }
+                           (fixes/C02-kern-overlapping-subtables.diff) *)
+                        let q := (pos + 14 + 6 * np)%nat in
+                        match kern_tables n' b (if (pos' <? q)%nat then q else pos') with
                         | Ok more => Ok (es ++ more)
                         | o => o
                         end
